@@ -17,6 +17,7 @@ import NgVerif.Model.Mesh
 import NgVerif.Model.Slices
 import NgVerif.Model.Http
 import NgVerif.Model.Convert
+import NgVerif.Model.Fault
 /-
   ngdriver: line protocol. One request per line on stdin (space-separated tokens),
   one reply per line on stdout. Unknown / malformed requests answer `bad-request`.
@@ -469,6 +470,38 @@ def handle (toks : List String) : String :=
         let b := k.2
         s!"{k.1}@{b.xmin}-{b.xmax}_{b.ymin}-{b.ymax}_{b.zmin}-{b.zmax}:{if Convert.validFor sr k then 1 else 0}{if Convert.validFor d k then 1 else 0}")
     | _, _ => "bad-request"
+  | ["fault-store", gz, glen, old, isz, vals, ev] =>
+    let oldD : Option Fault.Disk :=
+      match old.splitOn ":" with
+      | ["absent"] => some .absent
+      | ["plain", h] => (hexToBytes h).map .plain
+      | ["gz", h] => (hexToBytes h).map .gzFull
+      | _ => none
+    let evD : Option Fault.Event :=
+      match ev.splitOn ":" with
+      | ["none"] => some .none
+      | ["fault", k, j] => do pure (.fault (← parseNat k) (← parseNat j))
+      | ["crash", k, j] => do pure (.crash (← parseNat k) (← parseNat j))
+      | _ => none
+    match parseNat glen, oldD, parseNat isz, parseList parseNat vals, evD with
+    | some gl, some o, some iz, some vs, some e =>
+      let dec := fun b => (Raw.decode iz vs.length b).toOption
+      let (out, d) := Fault.storeRun (gz == "1") gl o (Raw.encode iz vs) e
+      let outS := match out with | .ok => "ok" | .dataAccess => "DataAccessError" | .died => "died"
+      let dS := match d with
+        | .absent => "absent" | .plain b => s!"plain:{bytesToHex b}" | .gzFull b => s!"gz:{bytesToHex b}"
+        | .gzEmpty => "gzempty" | .gzTorn => "gztorn"
+      let rS := match Fault.readChunk dec d with
+        | .ok a => s!"ok:{showNatList a}" | .error .dataAccess => "DataAccessError" | .error .format => "InvalidFormatError"
+      s!"{outS} {dS} {rS}"
+    | _, _, _, _, _ => "bad-request"
+  | ["fault-shard", m, p, body, j, ids] =>
+    match parseNat m, parseNat p, hexToBytes body, parseNat j, parseList parseNat ids with
+    | some m, some p, some b, some j, some ids =>
+      " ".intercalate (ids.map fun id =>
+        match Shard.implFetch m p (Fault.partialShard m b j) id with
+        | none => "none" | some x => bytesToHex x)
+    | _, _, _, _, _ => "bad-request"
   | ["http-dispatch", opt, info] =>
     let i : Option Bool := if info == "none" then none else some (info == "1")
     if Http.dispatchSharded (opt == "1") i then "sharded" else "plain"
